@@ -3,6 +3,7 @@ package main
 import (
 	"context"
 	"fmt"
+	"os"
 	"strconv"
 	"strings"
 	"time"
@@ -45,8 +46,10 @@ func httpScenarioFile(variant string) string {
 		pre += `        num: randInt(10, 20)
         uid: uuid()
 `
+		// X-Lim: the template itself fails for the user whose id is not a number (randInt cannot parse its bound)
 		hdr = `      X-Rand: "{{.request.auth.preprocessor.num}}-{{.request.auth.preprocessor.uid}}"
       X-Fn: '{{randInt 1 9}}{{uuid}}'
+      X-Lim: '{{randInt 1 .request.auth.preprocessor.u.id}}'
 `
 	}
 	return `variable_sources:
@@ -153,6 +156,7 @@ func grpcScenarioFile(variant string) string {
 `
 		md = `      x-rand: "{{.request.auth.preprocessor.num}}-{{.request.auth.preprocessor.uid}}"
       x-fn: '{{randInt 1 9}}{{uuid}}'
+      x-lim: '{{randInt 1 .request.auth.preprocessor.u.id}}'
 `
 	}
 	return `variable_sources:
@@ -227,7 +231,7 @@ func runRaceCase(f []string) string {
 	hs.Record = false
 	defer hs.Stop()
 	_ = afero.WriteFile(mfs, "/race-users.json", []byte(raceUsers), 0o644)
-	var gun, ammo string
+	var gun, ammo, answPath string
 	switch pool {
 	case "http":
 		_ = afero.WriteFile(mfs, "/race.uri", []byte("[Host: example.org]\n[X-Test: 1]\n/a tag1\n/b?x=1 tag2\n[X-Test: 2]\n/c\n"), 0o644)
@@ -235,8 +239,13 @@ func runRaceCase(f []string) string {
 		if variant == "1" {
 			gun += ", shared-client: {enabled: true, client-number: 2}"
 		}
-		gun += "}"
-		ammo = fmt.Sprintf("{type: uri, file: /race.uri, limit: %d}", nshots)
+		// one answer log shared by the guns of the pool (a real file: lib/answlog opens it with os.Create), sizes and
+		// timings from the dumps / the httptrace hooks
+		answPath = fmt.Sprintf("/var/tmp/C11-answ-%d.log", os.Getpid())
+		gun += fmt.Sprintf(", answlog: {enabled: true, path: %q, filter: all}, httptrace: {dump: true, trace: true}}", answPath)
+		// a provider middleware: it rewrites every request inside Acquire, i.e. on the instances' goroutines
+		ammo = fmt.Sprintf("{type: uri, file: /race.uri, limit: %d, middlewares: [{type: header/date, location: UTC, headerName: X-Date}]}", nshots)
+		hs.Record = true
 	case "httpscen":
 		_ = afero.WriteFile(mfs, "/race-http.yaml", []byte(httpScenarioFile(variant)), 0o644)
 		gun = fmt.Sprintf("{type: http/scenario, target: %q}", hs.Addr)
@@ -296,8 +305,23 @@ log: {level: error}
 	eng.Wait()
 	// one phout line per reported sample
 	samples := 0
+	phout := ""
 	if b, rerr := afero.ReadFile(mfs, "/phout.log"); rerr == nil {
-		samples = strings.Count(string(b), "\n")
+		phout = string(b)
+		samples = strings.Count(phout, "\n")
+	}
+	if answPath != "" {
+		defer os.Remove(answPath)
+	}
+	// scenario variant 3: the first step's template fails for every ammo that got the user with the non-numeric id
+	// ([next] hands the 5 users out in turn, each index exactly once over all instances): one sample and no exchange
+	tmplFail := 0
+	if variant == "3" && (pool == "httpscen" || pool == "grpcscen") {
+		for k := 0; k < nshots; k++ {
+			if k%5 == 3 {
+				tmplFail++
+			}
+		}
 	}
 	// what must hold whatever the schedule: the run ends without error, every ammo was shot, and
 	// every sample stands for exactly one exchange with the target (or one locally failed entry)
@@ -306,9 +330,9 @@ log: {level: error}
 	case "http":
 		want = nshots
 	case "httpscen":
-		want = seen
+		want = seen + tmplFail
 	case "grpcscen":
-		want, seen = int(gs.Count()), int(gs.Count())
+		want, seen = int(gs.Count())+tmplFail, int(gs.Count())
 	}
 	if err != nil {
 		return "enginerr:" + strings.ReplaceAll(err.Error(), " ", "_")
@@ -327,8 +351,32 @@ log: {level: error}
 	if samples != want {
 		return fmt.Sprintf("counts:samples=%d,expected=%d,target=%d", samples, want, seen)
 	}
+	if pool == "http" {
+		// every request went through the provider's middleware; every exchange is in the shared answer log once;
+		// every sample carries the sizes of the dumps
+		dated := 0
+		for _, r := range hs.Drain() {
+			if strings.Contains(r.Headers, vhHex("X-Date")+"=") {
+				dated++
+			}
+		}
+		b, _ := os.ReadFile(answPath)
+		reqs, resps := strings.Count(string(b), "REQUEST:\n"), strings.Count(string(b), "RESPONSE:\n")
+		sized := 0
+		for _, ln := range strings.Split(strings.TrimSpace(phout), "\n") {
+			c := strings.Split(ln, "\t")
+			if len(c) >= 12 && c[8] != "0" && c[9] != "0" {
+				sized++
+			}
+		}
+		if dated != nshots || reqs != nshots || resps != nshots || sized != nshots {
+			return fmt.Sprintf("counts:dated=%d,answlog-requests=%d,answlog-responses=%d,sized-samples=%d,ammo=%d", dated, reqs, resps, sized, nshots)
+		}
+	}
 	return "done"
 }
+
+func vhHex(s string) string { return fmt.Sprintf("%x", s) }
 
 
 
